@@ -603,6 +603,13 @@ impl TreeEnv {
             .map_err(es)
     }
 
+    /// `Btree::remove_tuple`, the entry point VACUUM uses (addressed by a tuple carrying the key).
+    pub fn remove_tuple(&self, t: &TreeHandle, key: &Key) -> Result<(), String> {
+        let tuple = self.build_tuple(t, key, &[], 1)?;
+        let mut tree = self.tree_mut(t);
+        tree.remove_tuple(t.root, &tuple, &t.schema).map_err(es)
+    }
+
     /// `Btree::search` by serialized key bytes: `Some(blob payload, reassembled)` / `None`.
     pub fn search(&self, t: &TreeHandle, key: &Key) -> Result<Option<Vec<u8>>, String> {
         let kb = key_bytes(t.kind, key)?;
